@@ -50,3 +50,40 @@ Definition ipoly_norm (phis : list Q) (F : lpoly Q) : option Z :=
   match resp_elem phis with Some g => norm1_diff (la_I g) F | None => None end.
 Definition c01_norm (phis pc : list Q) (eps suc : Q) : option Z :=
   match target_F (cap_target pc eps suc) with Some F => ipoly_norm phis F | None => None end.
+
+(* ---- C07: Laurent entry point.  |A(w)/suc - p(w)| < eps on the circle, certified as
+   sum_k |A_k - suc p_k| < suc * eps  (suc > 0) *)
+Definition scaled_lt_q (v : Z) (q : Q) : bool := (v * Zpos (Qden q) <? Qnum q * scaleZ)%Z.
+Definition c07_target (p : list Q) (suc : Q) : lpoly Q := mk OpsQ (scale OpsQ suc p) (- len p + 1).
+Definition c07_norm (phis p : list Q) (suc : Q) : option Z := ipoly_norm phis (c07_target p suc).
+Definition check_c07 (phis p : list Q) (eps suc : Q) : bool :=
+  Nat.eqb (length phis) (length p) && Qltb 0 suc &&
+  match c07_norm phis p suc with Some n => scaled_lt_q n (Qmult suc eps) | None => false end.
+
+(* ---- C06: two phase lists build the same element coefficient-wise within tol, and differ
+   by a sign gauge: sin(phi'_j - phi_j) ~ 0 for every j, and an even number of the
+   differences is an odd multiple of pi *)
+Fixpoint all_ub_le (l : list I) (tol : Q) : bool :=
+  match l with [] => true | i :: l => scaled_le_q (iabs_ub i) tol && all_ub_le l tol end.
+Definition elem_close (g h : lalg I) (tol : Q) : bool :=
+  match la_sub OpsI g h with
+  | Some d => all_ub_le (lp_coefs (la_I d)) tol && all_ub_le (lp_coefs (la_X d)) tol
+  | None => false
+  end.
+Fixpoint gauge_ok (a b : list Q) (stol : Q) (parity : bool) : bool :=
+  match a, b with
+  | [], [] => negb parity
+  | x :: a, y :: b =>
+      let cs := cos_sin_encl (qadd y (Qopp x)) in
+      scaled_le_q (iabs_ub (snd cs)) stol &&
+      (if (0 <? lo (fst cs))%Z then gauge_ok a b stol parity
+       else if (hi (fst cs) <? 0)%Z then gauge_ok a b stol (negb parity)
+       else false)
+  | _, _ => false
+  end.
+Definition check_roundtrip (phis phis' : list Q) (tol stol : Q) : bool :=
+  Nat.eqb (length phis) (length phis') &&
+  match resp_elem phis, resp_elem phis' with
+  | Some g, Some h => elem_close g h tol
+  | _, _ => false
+  end && gauge_ok phis phis' stol false.
